@@ -484,9 +484,20 @@ def check_case(spec, fault):
     info = dict(delivered=rec.delivered_at is not None, nontrivial=False, flag=None, msg=None)
     if rec.delivered_at is None:
         return V, info                      # the run ended before call k (possible only if the solver is not deterministic)
-    prefault = [rec.obj(j) for j in range(min(k - 1, len(rec.rs)))]
-    finite_before = [v for v in prefault if math.isfinite(v)]
     averaging = spec.get('nsamples', 1) != 1
+    npre = min(k - 1, len(rec.rs))
+    if averaging:
+        # under sample averaging the solver stores the MEAN of the samples of a point: a pre-fault evaluation counts only if
+        # every sample of its point (all calls at the identical x) was delivered before the fault and is finite
+        keys = [tuple(np.asarray(xj, dtype=float).tolist()) for xj in rec.xs]
+        ok_pts = {}
+        for j, key in enumerate(keys):
+            good = (j < npre) and math.isfinite(rec.obj(j))
+            ok_pts[key] = ok_pts.get(key, True) and good
+        prefault = [rec.obj(j) for j in range(npre) if ok_pts[keys[j]]]
+    else:
+        prefault = [rec.obj(j) for j in range(npre)]
+    finite_before = [v for v in prefault if math.isfinite(v)]
 
     if kind == 'raise':
         info['nontrivial'] = True
